@@ -53,6 +53,9 @@ Proof. reflexivity. Qed.
 Lemma len0 : forall A (l : list A), Nat.eqb (length l) 0 = match l with [] => true | _ => false end.
 Proof. intros A [|x r]; reflexivity. Qed.
 
+(* the string literals of the translation are `lit "..."`, those of the model are the computed lists *)
+Ltac norm_lit := repeat match goal with |- context [lit ?s] => let v := eval vm_compute in (lit s) in change (lit s) with v end.
+
 (* ------------------------------------------------------------------ *)
 (* gettext.parse_header *)
 
@@ -70,44 +73,34 @@ Proof.
   destruct a as [|c a']; cbn [str_eqb]; [rewrite rev_involutive|]; reflexivity.
 Qed.
 
-Lemma src_parse_line : forall x,
-  (if truthy (snd (split1 58 x)) && valid_field_name (fst (split1 58 x))
-   then oapp (oassert (Nat.eqb (length (snd (split1 58 x))) 1))
-             (Ok [HField (fst (split1 58 x)) (strip_blank (hd [] (snd (split1 58 x))))])
-   else Ok [HStray x]) = Ok [parse_line x].
-Proof.
-  intro x. unfold split1, parse_line. destruct (split_first 58 x) as [[a b]|]; cbn [fst snd truthy andb hd length]; [|reflexivity].
-  destruct (valid_field_name a); reflexivity.
-Qed.
-
 (* the generator, consumed to the end, yields the model's lines and does not raise (the assert is dead) *)
 Lemma src_parse_header_eq : forall s, src_parse_header s = Ok (parse_header s).
 Proof.
   intro s. unfold src_parse_header, parse_header, header_lines.
   rewrite (drop_last_src _ (split_on_ne 10 s)).
-  apply ocoll_single. intro x. apply src_parse_line.
+  apply ocoll_single. intro x. unfold split1, parse_line.
+  destruct (split_first 58 x) as [[a b]|]; cbn [fst snd truthy andb hd length]; rewrite ?andb_false_r, ?andb_true_r; [|reflexivity].
+  destruct (valid_field_name a); reflexivity.
 Qed.
 
 (* ------------------------------------------------------------------ *)
 (* check_comments *)
 
-Lemma src_comment_regex : forall O template line,
-  alt_search (if negb template
-              then [m_word_lit O (lit "PACKAGE package"); m_copyright_year O; m_word_lit O (lit "THE PACKAGE'S COPYRIGHT HOLDER")]
-                   ++ [m_word_lit O (lit "FIRST AUTHOR"); m_plain (lit "<EMAIL@ADDRESS>"); m_gt_year O]
-              else [m_word_lit O (lit "PACKAGE package"); m_copyright_year O; m_word_lit O (lit "THE PACKAGE'S COPYRIGHT HOLDER")]) line
-  = comment_line_boilerplate O template line.
-Proof.
-  intros O template line. unfold alt_search, comment_line_boilerplate. apply search_pos_ext. intros p x.
-  unfold comment_boilerplate_at. destruct template; cbn [negb app existsb andb]; rewrite ?orb_false_r, ?orb_assoc; reflexivity.
-Qed.
-
 Lemma src_check_comments_eq : forall O template comment,
   src_check_comments O template comment = check_comments O template comment.
 Proof.
   intros O template comment. unfold src_check_comments, check_comments.
-  apply flat_map_ext'. intro line. rewrite src_comment_regex.
-  destruct (comment_line_boilerplate O template line); reflexivity.
+  apply flat_map_ext'. intro line.
+  replace (alt_search _ line) with (comment_line_boilerplate O template line).
+  - destruct (comment_line_boilerplate O template line); reflexivity.
+  - unfold alt_search, comment_line_boilerplate. apply search_pos_ext. intros p x.
+    unfold comment_boilerplate_at. norm_lit. destruct template; cbn [negb app existsb andb];
+    repeat match goal with
+           | |- context [m_word_lit ?a ?b ?c ?d] => destruct (m_word_lit a b c d)
+           | |- context [m_copyright_year ?a ?b ?c] => destruct (m_copyright_year a b c)
+           | |- context [m_gt_year ?a ?b ?c] => destruct (m_gt_year a b c)
+           | |- context [m_plain ?a ?b ?c] => destruct (m_plain a b c)
+           end; reflexivity.
 Qed.
 
 (* ------------------------------------------------------------------ *)
@@ -130,19 +123,12 @@ Proof.
     destruct proposal; destruct pref; reflexivity.
 Qed.
 
-Lemma src_ct_value : forall O template x,
-  match content_type_match O x with
-  | Some m => fst (charset_part O template x (snd m))
-              ++ (if negb (fst m)
-                  then [DInvalidContentType x (match snd (charset_part O template x (snd m)) with Some e => Some e | None => None end)]
-                  else [])
-  | None => [DInvalidContentType x None]
-  end = content_type_diags O template x.
-Proof.
-  intros. rewrite content_type_diags_charset_part.
-  destruct (content_type_match O x) as [m|]; [|reflexivity].
-  destruct (snd (charset_part O template x (snd m))); reflexivity.
-Qed.
+(* one Content-Type value *)
+Ltac ct_value O template :=
+  let x := fresh "x" in let m := fresh "m" in
+  intro x; rewrite (content_type_diags_charset_part O template x);
+  destruct (content_type_match O x) as [m|]; [|reflexivity];
+  destruct (snd (charset_part O template x (snd m))); destruct (fst m); reflexivity.
 
 Lemma src_check_mime_eq : forall O template fs,
   src_check_mime O template (charset_part O template) fs = check_mime O template fs.
@@ -160,81 +146,17 @@ Proof.
   f_equal. { destruct (dedup (values_of (field_name FCte) fs)); reflexivity. }
   unfold dedup. destruct (many (values_of (field_name FContentType) fs)) eqn:Hm.
   - destruct (values_of (field_name FContentType) fs) as [|a r]; [discriminate Hm|].
-    cbn [app]. f_equal. apply flat_map_ext'. intro x. apply src_ct_value.
+    cbn [app]. f_equal. apply flat_map_ext'. ct_value O template.
   - destruct (values_of (field_name FContentType) fs) as [|a r]; [reflexivity|].
-    cbn [app]. apply flat_map_ext'. intro x. apply src_ct_value.
+    cbn [app]. apply flat_map_ext'. ct_value O template.
 Qed.
+
 (* ------------------------------------------------------------------ *)
-(* check_project *)
+(* check_project, check_translator *)
 
 Lemma src_report_values : forall fs,
   (if strs_eqb (dedup (values_of (field_name FReport) fs)) [[]] then [] else dedup (values_of (field_name FReport) fs)) = report_values fs.
 Proof. intro fs. unfold report_values. destruct (dedup (values_of (field_name FReport) fs)) as [|[|c a] [|y r]]; reflexivity. Qed.
-
-Lemma src_project_value : forall O v,
-  (if str_eqb v (lit "PACKAGE VERSION") || str_eqb v (lit "PROJECT VERSION") then [DBoilerplateProject v]
-   else (if negb (has_name_char O v) then [DNoPackageName v] else []) ++ (if negb (has_ascii_digit v) then [DNoVersion v] else []))
-  = project_diags O v.
-Proof.
-  intros O v. unfold project_diags.
-  change (lit "PACKAGE VERSION") with (LIT "PACKAGE VERSION"). change (lit "PROJECT VERSION") with (LIT "PROJECT VERSION").
-  destruct (str_eqb v _ || str_eqb v _); [reflexivity|].
-  destruct (has_name_char O v), (has_ascii_digit v); reflexivity.
-Qed.
-
-Lemma src_report_value : forall O eos so v,
-  (if negb (hmem 64 (o_parseaddr O v))
-   then Ok (if scheme_or_empty_is_empty (o_urlscheme O v) then [DInvalidReport v] else [])
-   else obind (email_in_special_domain O eos so (o_parseaddr O v))
-          (fun sp => if sp then Ok [DInvalidReport v]
-                     else if str_eqb (o_parseaddr O v) (lit "EMAIL@ADDRESS") then Ok [DBoilerplateReport v]
-                     else obind (email_in_dotless_domain (o_parseaddr O v))
-                            (fun dl => if dl then Ok [DInvalidReport v] else Ok [])))
-  = report_diags O eos so v.
-Proof.
-  intros O eos so v. unfold report_diags. change (lit "EMAIL@ADDRESS") with s_EMAIL_ADDRESS.
-  destruct (negb (hmem 64 (o_parseaddr O v))).
-  - destruct (o_urlscheme O v); reflexivity.
-  - destruct (email_in_special_domain O eos so (o_parseaddr O v)) as [[|]|e|c]; cbn [obind]; try reflexivity.
-    destruct (str_eqb (o_parseaddr O v) s_EMAIL_ADDRESS); [reflexivity|].
-    destruct (email_in_dotless_domain (o_parseaddr O v)) as [[|]|e|c]; reflexivity.
-Qed.
-
-Lemma src_check_project_eq : forall O eos so fs,
-  src_check_project O eos so fs = check_project O eos so fs.
-Proof.
-  intros O eos so fs. unfold src_check_project, check_project.
-  change (lit "Project-Id-Version") with (field_name FProject).
-  change (lit "Report-Msgid-Bugs-To") with (field_name FReport).
-  rewrite !dedup_if, !many_len, !len0, !src_report_values, oapp_ok.
-  rewrite (ocoll_ocollect _ _ (report_diags O eos so)) by (intro v; apply src_report_value).
-  destruct (ocollect _ _) as [rd|e|c]; cbn [obind]; [|reflexivity|reflexivity].
-  f_equal. rewrite <- !app_assoc. f_equal.
-  { destruct (many (values_of (field_name FProject) fs)); [reflexivity|].
-    destruct (values_of (field_name FProject) fs); reflexivity. }
-  f_equal. { apply flat_map_ext'. intro v. apply src_project_value. }
-  f_equal. f_equal.
-  destruct (report_values fs); reflexivity.
-Qed.
-
-(* ------------------------------------------------------------------ *)
-(* check_translator *)
-
-Lemma src_translator_value : forall O eos so template v,
-  (if negb (hmem 64 (o_parseaddr O v)) then Ok [DInvalidTranslator v]
-   else obind (email_in_special_domain O eos so (o_parseaddr O v))
-          (fun sp => if sp then Ok [DInvalidTranslator v]
-                     else if str_eqb (o_parseaddr O v) (lit "EMAIL@ADDRESS") then Ok (if negb template then [DBoilerplateTranslator v] else [])
-                     else obind (email_in_dotless_domain (o_parseaddr O v))
-                            (fun dl => if dl then Ok [DInvalidTranslator v] else Ok [])))
-  = translator_diags O eos so template v.
-Proof.
-  intros O eos so template v. unfold translator_diags. change (lit "EMAIL@ADDRESS") with s_EMAIL_ADDRESS.
-  destruct (negb (hmem 64 (o_parseaddr O v))); [reflexivity|].
-  destruct (email_in_special_domain O eos so (o_parseaddr O v)) as [[|]|e|c]; cbn [obind]; try reflexivity.
-  destruct (str_eqb (o_parseaddr O v) s_EMAIL_ADDRESS); [destruct template; reflexivity|].
-  destruct (email_in_dotless_domain (o_parseaddr O v)) as [[|]|e|c]; reflexivity.
-Qed.
 
 Lemma find_map_fst : forall (g : str -> str) (k : str) l,
   find (fun kv : str * str => str_eqb (fst kv) k) (map (fun x => (g x, x)) l) =
@@ -253,26 +175,35 @@ Proof.
   destruct (find _ (rev translators)); reflexivity.
 Qed.
 
-Lemma src_team_value : forall O eos so template translators v,
-  (if negb (hmem 64 (o_parseaddr O v)) then Ok []
-   else obind (email_in_special_domain O eos so (o_parseaddr O v))
-          (fun sp => if sp then Ok [DInvalidTeam v]
-                     else if str_eqb (o_parseaddr O v) (lit "LL@li.org") || str_eqb (o_parseaddr O v) (lit "EMAIL@ADDRESS")
-                          then Ok (if negb template then [DBoilerplateTeam v] else [])
-                     else obind (email_in_dotless_domain (o_parseaddr O v))
-                            (fun dl => if dl then Ok [DInvalidTeam v]
-                                       else Ok (match dict_get (flat_map (fun x => [(o_parseaddr O x, x)]) translators) (o_parseaddr O v) with
-                                                | Some t => [DTeamEqualsTranslator v t]
-                                                | None => []
-                                                end))))
-  = team_diags O eos so template translators v.
+(* the address ladder of one value: case analysis on every test it makes (each may also raise) *)
+Ltac ladder O eos so template v :=
+  change (lit "EMAIL@ADDRESS") with s_EMAIL_ADDRESS; change (lit "LL@li.org") with (LIT "LL@li.org");
+  rewrite ?src_translator_emails;
+  destruct (hmem 64 (o_parseaddr O v)); cbn [negb];
+  [ destruct (email_in_special_domain O eos so (o_parseaddr O v)) as [[|]|?|?]; cbn [obind]; try reflexivity;
+    destruct (str_eqb (o_parseaddr O v) (LIT "LL@li.org")); cbn [orb];
+    destruct (str_eqb (o_parseaddr O v) s_EMAIL_ADDRESS); try (destruct template; reflexivity);
+    destruct (email_in_dotless_domain (o_parseaddr O v)) as [[|]|?|?]; reflexivity
+  | try reflexivity; destruct (o_urlscheme O v); reflexivity ].
+
+Lemma src_check_project_eq : forall O eos so fs,
+  src_check_project O eos so fs = check_project O eos so fs.
 Proof.
-  intros O eos so template translators v. unfold team_diags. rewrite src_translator_emails.
-  change (lit "EMAIL@ADDRESS") with s_EMAIL_ADDRESS. change (lit "LL@li.org") with (LIT "LL@li.org").
-  destruct (negb (hmem 64 (o_parseaddr O v))); [reflexivity|].
-  destruct (email_in_special_domain O eos so (o_parseaddr O v)) as [[|]|e|c]; cbn [obind]; try reflexivity.
-  destruct (str_eqb (o_parseaddr O v) _ || str_eqb (o_parseaddr O v) s_EMAIL_ADDRESS); [destruct template; reflexivity|].
-  destruct (email_in_dotless_domain (o_parseaddr O v)) as [[|]|e|c]; reflexivity.
+  intros O eos so fs. unfold src_check_project, check_project.
+  change (lit "Project-Id-Version") with (field_name FProject).
+  change (lit "Report-Msgid-Bugs-To") with (field_name FReport).
+  rewrite !dedup_if, !many_len, !len0, !src_report_values, oapp_ok.
+  rewrite (ocoll_ocollect _ _ (report_diags O eos so)) by (intro v; unfold report_diags; ladder O eos so false v).
+  destruct (ocollect _ _) as [rd|e|c]; cbn [obind]; [|reflexivity|reflexivity].
+  f_equal. rewrite <- !app_assoc. f_equal.
+  { destruct (many (values_of (field_name FProject) fs)); [reflexivity|].
+    destruct (values_of (field_name FProject) fs); reflexivity. }
+  f_equal.
+  { apply flat_map_ext'. intro v. unfold project_diags.
+    change (lit "PACKAGE VERSION") with (LIT "PACKAGE VERSION"). change (lit "PROJECT VERSION") with (LIT "PROJECT VERSION").
+    destruct (str_eqb v (LIT "PACKAGE VERSION")), (str_eqb v (LIT "PROJECT VERSION")); cbn [orb]; try reflexivity.
+    destruct (has_name_char O v), (has_ascii_digit v); reflexivity. }
+  f_equal. f_equal. destruct (report_values fs); reflexivity.
 Qed.
 
 Lemma src_check_translator_eq : forall O eos so template fs,
@@ -282,9 +213,9 @@ Proof.
   change (lit "Last-Translator") with (field_name FTranslator).
   change (lit "Language-Team") with (field_name FTeam).
   rewrite !dedup_if, !many_len, !len0.
-  rewrite (ocoll_ocollect _ _ (translator_diags O eos so template)) by (intro v; apply src_translator_value).
+  rewrite (ocoll_ocollect _ _ (translator_diags O eos so template)) by (intro v; unfold translator_diags; ladder O eos so template v).
   rewrite (ocoll_ocollect _ _ (team_diags O eos so template (dedup (values_of (field_name FTranslator) fs))))
-    by (intro v; apply src_team_value).
+    by (intro v; unfold team_diags; ladder O eos so template v).
   destruct (ocollect (translator_diags O eos so template) _) as [td|e|c]; cbn [oapp obind]; [|reflexivity|reflexivity].
   destruct (ocollect (team_diags O eos so template _) _) as [md|e|c]; cbn [oapp obind]; [|reflexivity|reflexivity].
   f_equal. f_equal.
@@ -294,6 +225,7 @@ Proof.
   destruct (many (values_of (field_name FTeam) fs)); [reflexivity|].
   destruct (values_of (field_name FTeam) fs); reflexivity.
 Qed.
+
 (* ------------------------------------------------------------------ *)
 (* check_headers *)
 
